@@ -351,20 +351,21 @@ def _ignore_grads(check: Check):
   ff = FuncFlow.of(repo, ap)
   check.analysed(ap)
   p_grads, p_opt, p_params = ap.positional_params[:3]
-  maps = {}
-  for ds in ff.rd.defs_at.values():
-    for d in ds:
-      v = d.value
-      if isinstance(v, ast.Call) and ff.ext(v.func) == 'haiku.data_structures.map' and len(v.args) == 2:
-        maps[d.name] = (txt(v.args[0]), ff.param_of(v.args[1]))
-  same_fn = len({f for f, _ in maps.values()}) == 1 and {p for _, p in maps.values()} == {p_grads, p_params}
+  map_calls = [v for _, v in ff.calls() if ff.ext(v.func) == 'haiku.data_structures.map' and len(v.args) == 2]
+  seen_ = set()
+  map_calls = [v for v in map_calls if not (id(v) in seen_ or seen_.add(id(v)))]
+  filt = {id(v): (txt(v.args[0]), ff.param_of(v.args[1])) for v in map_calls}
+  same_fn = len({f for f, _ in filt.values()}) == 1 and {p for _, p in filt.values()} == {p_grads, p_params}
+  def filtered_of(e):
+    for v in ff.expand(e):
+      if isinstance(v, ast.Call) and id(v) in filt:
+        return filt[id(v)][1]
+    return None
   sites = sk.opt_apply_sites(ff, None)
   args_ok = False
   if len(sites) == 1:
     oc = sites[0]
-    g, pr = oc.grads, oc.params
-    args_ok = isinstance(g, ast.Name) and isinstance(pr, ast.Name) and maps.get(g.id, (None, None))[1] == p_grads and maps.get(
-        pr.id, (None, None))[1] == p_params and ff.param_of(oc.opt_state) == p_opt
+    args_ok = filtered_of(oc.grads) == p_grads and filtered_of(oc.params) == p_params and ff.param_of(oc.opt_state) == p_opt
   check.ob('R-IGNORE', ap, 'base.apply(filter(grads), opt_state, filter(params))', same_fn and args_ok,
            f'the same name filter is applied to gradients and parameters (ok={same_fn}) and the base optimizer only sees the '
            f'filtered trees (ok={args_ok})')
